@@ -315,7 +315,9 @@ func (Sim) Run(raw json.RawMessage, prop string, keep bool) (res simfw.Result) {
 			readSoFar[ev.Loc] = true
 			if ev.OK {
 				okRead[ev.Loc] = true
-			} else if _, seen := failedRead[ev.Loc]; !seen {
+			} else if _, seen := failedRead[ev.Loc]; !seen && (J[ev.Loc] || !s.External) {
+				// (only locations some reference designates are "targets" for the C02 clauses: a failed read of
+				// a location nothing refers to - known finding K1's wrong-base read - is C11's business)
 				failedRead[ev.Loc] = ev.Fault
 			}
 			isRoot := rootHasLocation && ev.Loc == rootLoc
